@@ -357,23 +357,4 @@ theorem failed_step_invisible_in_history (db : Db) (before : List FOp) (op : FOp
 
 /-! ### non-vacuity on the shipped table -/
 
-open Barril.Gen in
-example : poscDb.convert (Sym.ofString "length") (Sym.ofString "m") (Sym.ofString "s") 1
-    = .error .units := by decide +kernel
-open Barril.Gen in
-example : (step poscDb FState.empty (.create (Sym.ofString "length") (Sym.ofString "s"))).2
-    = .error .units := by decide +kernel
-open Barril.Gen in
-example : (step poscDb FState.empty
-    (.arith .add (Sym.ofString "length") (Sym.ofString "m") (Sym.ofString "time") (Sym.ofString "s") 1 2)).2
-    = .error .units := by decide +kernel
-open Barril.Gen in
-example : (step poscDb FState.empty
-    (.cmp .lt (Sym.ofString "length") (Sym.ofString "m") (Sym.ofString "time") (Sym.ofString "s") 1 2)).2
-    = .error .type := by decide +kernel
-open Barril.Gen in
-example : (step poscDb FState.empty
-    (.arith .add (Sym.ofString "length") (Sym.ofString "m") (Sym.ofString "depth") (Sym.ofString "cm") 1 200)).2
-    = .ok (.qnumber ⟨Sym.ofString "length", Sym.ofString "m"⟩ 3) := by decide +kernel
-
 end Barril.Fail
